@@ -351,6 +351,8 @@ def evaluate_point(desc, i, ansP, stats):
             findings.extend(oracles.conformance(full, view, flags))
             if view.get("t") is not None:
                 stats["timed_points"] = stats.get("timed_points", 0) + 1
+            findings.extend(oracles.c08_vs_model(full, view))
+            findings.extend(oracles.c15_vs_model(full, view))
             # ... and what the perturbed execution itself reported conforms as well
             pert = None
             if what == "FULL" and isinstance(a, dict):
